@@ -76,20 +76,12 @@ class TaintInterp(Interp):
         self.unescapes = set()
         self.appends = []            # (tick, list object, value)
         self.tick = 0
-        self._calls = []             # stack of (module.rel, lineno)
         self.n_match = 0
         self.level = 0               # include nesting of the translate() activation that is running
 
     # -- locations
-    def e_Call(self, e, env, module):
-        self._calls.append((module.rel, e.lineno))
-        try:
-            return super().e_Call(e, env, module)
-        finally:
-            self._calls.pop()
-
     def here(self):
-        return self._calls[-1] if self._calls else ("?", 0)
+        return self.call_stack[-1] if self.call_stack else ("?", 0)
 
     # -- the escape / un-escape rewrites and replace-scans on unknown texts
     def call(self, f, args, kwargs):
@@ -178,17 +170,22 @@ class TaintInterp(Interp):
         rets = []
         if fname in ("sub", "subn") and repl is not None and not isinstance(repl, (str, Unknown)):
             saved = self.o
+            the_match = self.new_match(label)
 
             def one(o2):
                 self.o = o2
                 t0 = self.tick
                 try:
-                    v = self.call(repl, [self.new_match(label)], {})
+                    v = self.call(repl, [the_match], {})
                     return dict(kind="ret", value=v, t0=t0, t1=self.tick)
                 except PyRaise as e:
                     return dict(kind="raise", value=e.exc, t0=t0, t1=self.tick)
             try:
+                # the callback is run for a first occurrence of a construct (every path), and then again for a second
+                # occurrence with the same text: whatever the first left behind (a memo, a counter, a shared mapping)
+                # is there when the second runs
                 rets = [r for _, r in explore(one, max_paths=400)]
+                rets += [dict(r, repeat=True) for _, r in explore(one, max_paths=400)]
             finally:
                 self.o = saved
             if ev is not None:
